@@ -75,3 +75,32 @@ package imagetype
 //@   ensures [C17] it == ImageSVG ==> r0 == "image/svg+xml"
 //@   ensures [C17] it == ImageMAGICK ==> r0 == "image/magick"
 //@   ensures [C17] it > ImageMAGICK ==> r0 == "application/octet-stream"
+
+// C17 (and the text round trip of C16): parsing a documented name returns the value it names - the inverse of the table above.
+//@ func FromString
+//@   props C17 C16
+//@   pure
+//@   ensures [C17 C16] str == "application/octet-stream" ==> r0 == ImageUnknown
+//@   ensures [C17 C16] str == "image/jpeg" ==> r0 == ImageJPEG
+//@   ensures [C17 C16] str == "image/png" ==> r0 == ImagePNG
+//@   ensures [C17 C16] str == "image/gif" ==> r0 == ImageGIF
+//@   ensures [C17 C16] str == "image/bmp" ==> r0 == ImageBMP
+//@   ensures [C17 C16] str == "image/webp" ==> r0 == ImageWebP
+//@   ensures [C17 C16] str == "image/heif" ==> r0 == ImageHEIF
+//@   ensures [C17 C16] str == "image/raw" ==> r0 == ImageRAW
+//@   ensures [C17 C16] str == "image/tiff" ==> r0 == ImageTiff
+//@   ensures [C17 C16] str == "image/x-adobe-dng" ==> r0 == ImageDNG
+//@   ensures [C17 C16] str == "image/x-nikon-nef" ==> r0 == ImageNEF
+//@   ensures [C17 C16] str == "image/x-panasonic-raw" ==> r0 == ImagePanaRAW
+//@   ensures [C17 C16] str == "image/x-sony-arw" ==> r0 == ImageARW
+//@   ensures [C17 C16] str == "image/x-canon-crw" ==> r0 == ImageCRW
+//@   ensures [C17 C16] str == "image/x-gopro-gpr" ==> r0 == ImageGPR
+//@   ensures [C17 C16] str == "image/x-canon-cr3" ==> r0 == ImageCR3
+//@   ensures [C17 C16] str == "image/x-canon-cr2" ==> r0 == ImageCR2
+//@   ensures [C17 C16] str == "image/vnd.adobe.photoshop" ==> r0 == ImagePSD
+//@   ensures [C17 C16] str == "application/rdf+xml" ==> r0 == ImageXMP
+//@   ensures [C17 C16] str == "image/avif" ==> r0 == ImageAVIF
+//@   ensures [C17 C16] str == "image/x-portable-pixmap" ==> r0 == ImagePPM
+//@   ensures [C17 C16] str == "image/jp2" ==> r0 == ImageJP2K
+//@   ensures [C17 C16] str == "image/svg+xml" ==> r0 == ImageSVG
+//@   ensures [C17 C16] str == "image/magick" ==> r0 == ImageMAGICK
